@@ -18,7 +18,7 @@ EXPLANATION = (
     "phi_max is. C08.2: each application has the normal form N*ifft(L*fft(N*A)), N = exp(j*gamma*(s/2)*|A|^2), L = exp(D_op*s) with "
     "one and the same s. C08.3: a constant subscript used as polarisation selector on the field (rank 1 or 2 depending on n_pol) must "
     "be dominated by a two-polarisation guard; otherwise it selects samples of a one-polarisation signal. C08.4: each disjunct of the "
-    "single-step shortcut is gamma==0 or tests ==0 every parameter D_op depends on (alpha, beta_2, beta_3). Not decided: convergence "
+    "single-step shortcut is gamma==0 or tests ==0 every parameter D_op depends on (alpha, beta_2, beta_3). C08.6: D_op is the NLSE's linear operator -alpha'/2 - j/2*beta2*W^2 - j/6*beta3*W^3 (shared with C07.3). Not decided: convergence "
     "to the NLSE solution, finiteness.")
 TRUSTED = ["numpy.fft", "Karr's affine-relation domain as implemented in ocv/karr.py", "C07.3 (D_op form)"]
 
